@@ -61,6 +61,8 @@ class Check:
         self.known = [f for f in load_findings() if f["property"] == pid and f["status"] == "known"]
         self.tlc_runs: list[dict] = []
         self.skipped: dict[str, int] = {}
+        global LIVE
+        LIVE = self
 
     # ------------------------------------------------------------------ coverage
     def add_tlc(self, res: dict, name: str | None = None):
@@ -164,15 +166,34 @@ def _match(finding: dict, key: str) -> bool:
     return key == k
 
 
+LIVE = None      # the Check of the run in progress
+
+
+def _salvage(pid: str) -> int:
+    """The machinery broke down AFTER violations had been established: they stand (exit 1); the run is marked incomplete."""
+    chk = LIVE
+    if chk is None or chk.pid != pid or not chk.violations:
+        return 2
+    chk.exhaustive = False
+    chk.extra["incomplete"] = "the harness stopped with a machinery failure after these violations had been found"
+    try:
+        return chk.finish()
+    except Exception:  # noqa: BLE001
+        traceback.print_exc()
+        return 2
+
+
 def run_check(fn, pid: str, tier: str, replay: str | None = None) -> int:
+    global LIVE
+    LIVE = None
     try:
         if replay:
             return fn(tier, replay=json.loads(Path(replay).read_text()))
         return fn(tier)
     except MachineryError as e:
         print(f"MACHINERY-FAILURE property={pid}: {e}", file=sys.stderr)
-        return 2
+        return _salvage(pid)
     except Exception:  # noqa: BLE001
         traceback.print_exc()
         print(f"MACHINERY-FAILURE property={pid}: unexpected exception in harness", file=sys.stderr)
-        return 2
+        return _salvage(pid)
